@@ -8,6 +8,7 @@ Inductive gx :=
 | GNil                                               (* nil *)
 | GSel (path : list string)                          (* msg.Power, cr.MaxRate, types.MaxMonikerLength *)
 | GLit (z : Z)                                       (* 1_000_000 *)
+| GStr (s : string)                                  (* "a string literal" *)
 | GBin (op : string) (a b : gx)                      (* a < b, a == b, a && b, ... *)
 | GNot (a : gx)                                      (* !a *)
 | GEmptyStruct (ty : string)                         (* Description{} *)
@@ -20,6 +21,7 @@ Inductive gret :=
 | ROk                                                (* return nil *)
 | RErr (e : string)                                  (* return ErrX (Wrap / Wrapf stripped) *)
 | RSameErr                                           (* return err — the error of the call that failed *)
+| RExpr (e : gx)                                     (* return e — a function whose result is a value, not an error *)
 | RUnknown (what : string).
 
 Record guard := { g_cond : gx; g_ret : gret }.
